@@ -177,6 +177,7 @@ def run_check(modname, tier, seed):
     for fid, count in sorted(total['known'].items()):
         what = next(f['what'] for f in known if f['id'] == fid)
         print('KNOWN-FINDING: property=%s %s [%s, %d executions]' % (prop, what, fid, count))
+    unconfirmed = []
     for v in violations:
         h = case_hash(v['case'], v['faults'])
         path = os.path.join(replay_root, prop, h + '.json')
@@ -185,12 +186,21 @@ def run_check(modname, tier, seed):
                        'faults': v['faults'], 'messages': v['msgs']}, fh, indent=1, default=repr)
         verdicts = confirm(prop, path)
         if verdicts != [1, 1]:
-            print('HARNESS-ERROR: replay of %s did not reproduce (exit codes %r)' % (path, verdicts))
-            return 2
+            # Not believed: it shows only after some earlier execution in the same worker process (state leaking from
+            # one execution into the next, e.g. a coroutine that survived its close). The execution that caused it is
+            # reported on its own if it violates; if nothing confirmed remains, the run ends as a harness error.
+            unconfirmed.append((path, verdicts))
+            continue
         for m in v['msgs'][:3]:
             print('  ' + str(m)[:300])
         print('VIOLATION property=%s replay=%s' % (prop, path))
         status = 1
+    if unconfirmed and status == 0:
+        for path, verdicts in unconfirmed[:5]:
+            print('HARNESS-ERROR: replay of %s did not reproduce (exit codes %r)' % (path, verdicts))
+        return 2
+    for path, verdicts in unconfirmed[:5]:
+        print('UNCONFIRMED (not counted): replay of %s did not reproduce (exit codes %r)' % (path, verdicts))
     # samples: a few actual cases, chosen by the seed
     samples = []
     if n:
